@@ -14,7 +14,7 @@ RULE = (
     "42 attachable types built as in C02 (attached through attach_module / += / += [list]), connect/disconnect operations, patterns / clones / "
     "empty pattern slots with note cells (thorough: a few patterns of up to 32 tracks x 2048 lines), Unicode names (incl. names whose UTF-8 form straddles byte 32), MetaModules with embedded projects, "
     "Samplers with samples; a second family blanks generated module positions in the saved bytes, reloads and continues (interior empty "
-    "positions, gap filling). Oracle: bytes load without error, snapshot(loaded) == snapshot(original), module index/parent and pattern owner "
+    "positions, gap filling); half of the cases continue on the same, already saved project with more API calls (new modules, edits of existing modules, links, patterns, fields) and are saved and compared again. Oracle: bytes load without error, snapshot(loaded) == snapshot(original), module index/parent and pattern owner "
     "identities hold, and re-saving the loaded project is stable from the second generation on. distinct = recipe hash; non-trivial = >= 2 non-Output modules, or a "
     "non-default controller/option/payload, or a pattern with a non-empty cell, or a long name"
 )
@@ -24,7 +24,7 @@ ASSUMPTIONS = [
     "sunvox_version is the writer's identity and is left at the library's value",
 ]
 REQUIRED_LABELS = {
-    "quick": ["gap", "clone", "empty_pattern_slot", "name_straddles_32", "links", "freed_link_slot", "cells", "project_fields"],
+    "quick": ["gap", "clone", "empty_pattern_slot", "name_straddles_32", "links", "freed_link_slot", "cells", "project_fields", "second_stage"],
     "thorough": ["gap", "clone", "empty_pattern_slot", "name_straddles_32", "links", "freed_link_slot", "cells", "project_fields", "metamodule", "sampler_with_samples", "unit_changed"]
     + ["type_" + t for t in build.attachable_types()],
 }
@@ -59,6 +59,8 @@ def project_labels(spec):
             labels.add("freed_link_slot")
     if spec["fields"]:
         labels.add("project_fields")
+    if spec.get("then"):
+        labels.add("second_stage")
     return labels
 
 
@@ -127,6 +129,28 @@ def check_project_spec(ctx, spec):
         raise PropertyViolation("C01.roundtrip", "; ".join("%s: %r -> %r" % x for x in d[:4]), key="C01.roundtrip:" + area)
     check_identities(q, "loaded")
     check_identities(p, "original")
+    # second stage on the same in-memory project: it has been saved already; more API calls follow
+    # (more modules, links, patterns, field assignments, edits of existing modules) and the project
+    # must still save exactly what it holds
+    then = spec.get("then")
+    if then:
+        for k, v in then.get("fields", {}).items():
+            setattr(p, k, tuple(v) if k == "based_on_version" else v)
+        for ms in then.get("modules", []):
+            p.attach_module(build.make_module(ms))
+        for i, ms in then.get("edits", []):
+            live = [m for m in p.modules if m is not None and type(m).__name__ == ms["type"]]
+            if live:
+                build.apply_spec(live[i % len(live)], dict(ms, _ctor_as_sets=True))
+        for ps in then.get("patterns", []):
+            p.attach_pattern(build.make_pattern(ps))
+        build.apply_links(p, then)
+        t0 = snapshot.snap_project(p)
+        q2 = read_sunvox_file(BytesIO(p.read()))
+        d = snapshot.diff(t0, snapshot.snap_project(q2))
+        if d:
+            raise PropertyViolation("C01.second_stage", "project edited after it had been saved once: %s" % "; ".join("%s: %r -> %r" % x for x in d[:4]), key="C01.second_stage:" + "/".join(s_ for s_ in d[0][0].split("/")[1:4] if not s_.isdigit()))
+        check_identities(q2, "second stage")
     # a third generation must be stable (C05's rule, cheap to re-check here):
     # Y = save(load(X)) and save(load(Y)) == Y.  save(constructed) itself may differ from Y
     # (e.g. trailing freed link slots are dropped on load).
@@ -134,6 +158,24 @@ def check_project_spec(ctx, spec):
     y2 = read_sunvox_file(BytesIO(y)).read()
     if y2 != y:
         raise PropertyViolation("C01.resave_stable", "save(load(Y)) != Y for Y = save(load(saved project)) (%d vs %d bytes)" % (len(y2), len(y)))
+
+
+from hypothesis import strategies as _st
+
+
+@_st.composite
+def spec_with_second_stage(draw, depth, max_modules):
+    spec = draw(build.project_spec(depth=depth, max_modules=max_modules, max_patterns=4, top=True))
+    if draw(_st.booleans()):
+        then = draw(build.project_spec(depth=0, max_modules=2, max_patterns=2, light=True))
+        present = sorted({ms["type"] for ms in spec["modules"]})
+        then["edits"] = []
+        if present:
+            for _ in range(draw(_st.integers(0, 2))):
+                t = draw(_st.sampled_from(present))
+                then["edits"].append([draw(_st.integers(0, 5)), draw(build.module_spec(in_project=True, depth=0 if t in ("MetaModule", "Sampler") else 1, tname=t))])
+        spec["then"] = then
+    return spec
 
 
 def run_shard(ctx, desc):
@@ -150,7 +192,7 @@ def run_shard(ctx, desc):
         if len(repr(spec)) < 2500:
             ctx.sample(spec)
 
-    run_property(ctx, build.project_spec(depth=depth, max_modules=desc["max_modules"], max_patterns=4, top=True), body, desc["examples"], tag="project", bucket="project")
+    run_property(ctx, spec_with_second_stage(depth, desc["max_modules"]), body, desc["examples"], tag="project", bucket="project")
 
 
 def replay(ctx, doc):
